@@ -179,6 +179,10 @@ CONV_ROUTES = [
     ("to_value", lambda q, u: unyt_array(np.atleast_1d(q.to_value(u)), u)),
     ("convert_to_units", lambda q, u: (q.convert_to_units(u), q)[1]),
     ("to_unitobj", lambda q, u: q.to(Unit(u))),
+    # readings assigned into an array that is on another scale are converted on the way in
+    ("setitem-slice", lambda q, u: (lambda t: (t.__setitem__(slice(None), q), t)[1])(unyt_array(np.zeros(np.size(q)), u))),
+    ("setitem-index", lambda q, u: (lambda t: ([t.__setitem__(i, qi) for i, qi in enumerate(np.atleast_1d(q))], t)[1])(unyt_array(np.zeros(np.size(q)), u))),
+    ("setitem-mask", lambda q, u: (lambda t: (t.__setitem__(np.ones(np.size(q), dtype=bool), np.atleast_1d(q)), t)[1])(unyt_array(np.zeros(np.size(q)), u))),
     # a list of readings on mixed scales is coerced to the scale of its first element
     ("list-coercion", lambda q, u: unyt_array([unyt_quantity(1.0, u)] + [qi for qi in np.atleast_1d(q)])[1:]),
     ("list-coercion-tuple", lambda q, u: unyt_array((unyt_quantity(1.0, u),) + tuple(qi for qi in np.atleast_1d(q)))[1:]),
